@@ -818,6 +818,23 @@ func (w *World) epilogue() {
 		}
 		break
 	}
+	// after a rebuilt cache: resubmit a few of the entries the tool read
+	if strict && primary.state == stRunning && primary.recomputed != nil && primary.recomputedEpoch == primary.cacheEpoch {
+		n := 0
+		for _, it := range w.items {
+			if _, ok := primary.recomputed[it.Key]; ok && n < 3 {
+				n++
+				w.doSubmit(primary, it, false, core.Cmd{})
+			}
+		}
+		for i := 0; i < 5 && w.unfinished(primary) > 0; i++ {
+			time.Sleep(primary.untilNextTick())
+			synctest.Wait()
+			w.quiesce()
+		}
+		synctest.Wait()
+		w.quiesce()
+	}
 	if !strict {
 		w.orc.finalChecks()
 		return
